@@ -236,3 +236,164 @@ Theorem case_evaluation_is_sem : forall (o : oracles GQring cparam) (g : gate cp
   oracle_free g = true -> mat_eq (dim g) (sem_memo o g) (sem o g).
 Proof. exact sem_memo_eq. Qed.
 Print Assumptions case_evaluation_is_sem.
+
+(* ======================================================================================================================
+   The model is the code.  The gate classes of circuits/_gates.py (Gate, MatrixFactoryGate, ControlledGate, Dagger,
+   Exponential, Power, GateOperation, CustomGateDefinition.__call__) are TRANSLATED from their source on every run by
+   tr/tr_gates.py into Gen/GateModsGen.v: one inductive type [pygate W] with a constructor per dataclass, one definition
+   [Gate_<m>_gen] per method / property (dynamic dispatch = the match on the constructor, each branch the expression-by-
+   expression translation of the class's method body), [<C>_new] = constructor call + __post_init__.  The meaning of the
+   emitted building blocks is Circ/GatesTrSupport.v.  The theorems below (proofs: Circ/GatesGenProofs.v) state that the
+   generated definitions compute exactly what the model functions of Circ/GateAst.v compute - the functions all theorems
+   above are about.  [R : reading K P] says how the model reads what the code leaves open (has-free-symbols predicate,
+   str of a float, the matrix oracles, sub_symbols, get_free_symbols); [reading_ok R]: get_free_symbols returns a
+   non-empty collection exactly when some parameter has free symbols.  [emb R g]: the Python object a model gate stands
+   for (counts as Python ints; a sympy matrix is (dimension, entries)); [res R x]: the model's option as a result,
+   None = ValueError. *)
+Require Import OQ.Circ.GatesTrSupport OQ.Gen.GateModsGen OQ.Circ.GatesGenProofs.
+
+(* ---- what a gate reports *)
+Theorem generated_params_is_model : forall (K : cring) (P : Type) (R : reading K P) (g : gate P),
+  Gate_params_gen (emb R g) = params g.
+Proof. exact params_gen_is_model. Qed.
+Print Assumptions generated_params_is_model.
+
+Theorem generated_num_qubits_is_model : forall (K : cring) (P : Type) (R : reading K P) (g : gate P),
+  Gate_num_qubits_gen (emb R g) = Z.of_nat (num_qubits g).
+Proof. exact num_qubits_gen_is_model. Qed.
+Print Assumptions generated_num_qubits_is_model.
+
+Theorem generated_name_is_model : forall (K : cring) (P : Type) (R : reading K P) (g : gate P),
+  Gate_name_gen (emb R g) = name (rd_root_str R) g.
+Proof. exact name_gen_is_model. Qed.
+Print Assumptions generated_name_is_model.
+
+(* len(g.free_symbols) > 0 - the test of Exponential / Power.__post_init__ - is the model's has_free *)
+Theorem generated_free_symbols_is_model : forall (K : cring) (P : Type) (R : reading K P), reading_ok R ->
+  forall g : gate P, (0 <? py_len (Gate_free_symbols_gen (emb R g)))%Z = has_free (rd_pfree R) g.
+Proof. exact free_symbols_gen_is_model. Qed.
+Print Assumptions generated_free_symbols_is_model.
+
+(* ---- constructor calls: dataclass __init__ followed by __post_init__ = the model's checked constructors *)
+Theorem generated_constructors_are_model : forall (K : cring) (P : Type) (R : reading K P), reading_ok R ->
+  forall (g : gate P) (k : nat) (e : exponent),
+  ControlledGate_new (emb R g) (Z.of_nat k) = res R (mk_ctrl g k) /\
+  Exponential_new (emb R g) = res R (mk_exp (rd_pfree R) g) /\
+  @Power_new (model_world R) (emb R g) e = res R (mk_pow (rd_pfree R) g e).
+Proof.
+  intros K P R H g k e.
+  exact (conj (ControlledGate_new_is_model K P R g k)
+              (conj (Exponential_new_is_model K P R H g) (Power_new_is_model K P R H g e))).
+Qed.
+Print Assumptions generated_constructors_are_model.
+
+(* ---- the modifiers *)
+Theorem generated_exp_is_model : forall (K : cring) (P : Type) (R : reading K P), reading_ok R ->
+  forall g : gate P, Gate_exp_gen (emb R g) = res R (gexp (rd_pfree R) g).
+Proof. exact exp_gen_is_model. Qed.
+Print Assumptions generated_exp_is_model.
+
+Theorem generated_power_is_model : forall (K : cring) (P : Type) (R : reading K P), reading_ok R ->
+  forall (g : gate P) (e : exponent), @Gate_power_gen (model_world R) (emb R g) e = res R (power (rd_pfree R) e g).
+Proof. exact power_gen_is_model. Qed.
+Print Assumptions generated_power_is_model.
+
+Theorem generated_dagger_is_model : forall (K : cring) (P : Type) (R : reading K P), reading_ok R ->
+  forall g : gate P, Gate_dagger_gen (emb R g) = res R (dagger (rd_pfree R) g).
+Proof. exact dagger_gen_is_model. Qed.
+Print Assumptions generated_dagger_is_model.
+
+Theorem generated_controlled_is_model : forall (K : cring) (P : Type) (R : reading K P), reading_ok R ->
+  forall (g : gate P) (k : nat), Gate_controlled_gen (emb R g) (Z.of_nat k) = res R (controlled (rd_pfree R) k g).
+Proof. exact controlled_gen_is_model. Qed.
+Print Assumptions generated_controlled_is_model.
+
+(* the code takes any Python int, the model natural numbers: [controlledZ] (Circ/GatesGenProofs.v) describes the generated
+   method on every int, and agrees with the model's [controlled] on the naturals; for a negative count a ControlledGate
+   loses controls (no exception while one is left) - outside the property's quantifier "control counts >= 1" *)
+Theorem generated_controlled_on_any_int : forall (K : cring) (P : Type) (R : reading K P), reading_ok R ->
+  forall (g : gate P) (z : Z),
+  Gate_controlled_gen (emb R g) z = res R (controlledZ R z g) /\
+  (forall k : nat, controlledZ R (Z.of_nat k) g = controlled (rd_pfree R) k g).
+Proof. intros K P R H g z. exact (conj (controlled_gen_any_int K P R H g z) (controlledZ_nat K P R g)). Qed.
+Print Assumptions generated_controlled_on_any_int.
+
+Theorem generated_controlled_negative_count_merges : forall (K : cring) (P : Type) (R : reading K P), reading_ok R ->
+  forall (w : gate P) (k0 : nat) (z : Z), (1 <= Z.of_nat k0 + z)%Z ->
+  Gate_controlled_gen (emb R (Ctrl w k0)) z = Ok (emb R (Ctrl w (Z.to_nat (Z.of_nat k0 + z)))).
+Proof. exact controlled_gen_negative_merges. Qed.
+Print Assumptions generated_controlled_negative_count_merges.
+
+Theorem generated_replace_params_is_model : forall (K : cring) (P : Type) (R : reading K P), reading_ok R ->
+  forall (g : gate P) (ps : list P),
+  @Gate_replace_params_gen (model_world R) (emb R g) ps = res R (replace_params (rd_pfree R) ps g).
+Proof. exact replace_params_gen_is_model. Qed.
+Print Assumptions generated_replace_params_is_model.
+
+(* ---- the matrix property: sympy's adjoint / exp / ** / diag(eye(n), .) read as the model's oracles *)
+Theorem generated_matrix_is_model : forall (K : cring) (P : Type) (R : reading K P) (g : gate P),
+  Gate_matrix_gen (emb R g) = Ok (dim g, sem (rd_oracles R) g).
+Proof. exact matrix_gen_is_model. Qed.
+Print Assumptions generated_matrix_is_model.
+
+(* ---- bind (GateAst.v has no bind): replace_params with the substituted parameters; NotImplementedError as soon as a
+   Power / Exponential node is met on the way down *)
+Theorem generated_bind_is_replace_params : forall (K : cring) (P : Type) (R : reading K P), reading_ok R ->
+  forall (g : gate P) (m : rd_symmap R),
+  @Gate_bind_gen (model_world R) (emb R g) m =
+  if bindable g then res R (replace_params (rd_pfree R) (map (fun p => rd_sub R p m) (params g)) g)
+  else Raise E_NotImplementedError.
+Proof. exact bind_gen_spec. Qed.
+Print Assumptions generated_bind_is_replace_params.
+
+(* ---- Gate.__call__ and GateOperation: the gate methods with qubit_indices kept *)
+Theorem generated_gate_operation_is_model : forall (K : cring) (P : Type) (R : reading K P), reading_ok R ->
+  forall (g : gate P) (idx : list Z) (ps : list P) (m : rd_symmap R),
+  Gate_call_gen (emb R g) idx = GateOperation (emb R g) idx /\
+  GateOperation_params_gen (GateOperation (emb R g) idx) = params g /\
+  @GateOperation_replace_params_gen (model_world R) (GateOperation (emb R g) idx) ps =
+    match replace_params (rd_pfree R) ps g with
+    | Some r => Ok (GateOperation (emb R r) idx)
+    | None => Raise E_ValueError
+    end /\
+  @GateOperation_bind_gen (model_world R) (GateOperation (emb R g) idx) m =
+    bind (gbind R m g) (fun r => Ok (GateOperation r idx)).
+Proof.
+  intros K P R H g idx ps m.
+  exact (conj (call_gen_spec K P R g idx)
+        (conj (proj1 (gateop_params_spec K P R g idx))
+        (conj (gateop_replace_params_spec K P R H g idx ps) (gateop_bind_spec K P R H g idx m)))).
+Qed.
+Print Assumptions generated_gate_operation_is_model.
+
+(* ---- CustomGateDefinition.__call__: a custom gate is the model's Base gate, never flagged hermitian *)
+Theorem generated_custom_gate_is_base : forall (K : cring) (P : Type) (R : reading K P)
+  (n : string) (M : nat * Mat K) (so : list (rd_symbol R)) (q : nat) (ps : list P),
+  @CustomGateDefinition_call_gen (model_world R) (custom_factory R)
+    (@CustomGateDefinition (model_world R) n M so (Z.of_nat q)) ps =
+  emb R (Base n ps q false).
+Proof. exact custom_call_gen_is_model. Qed.
+Print Assumptions generated_custom_gate_is_base.
+
+(* ---- the generated code runs: Dagger(Power(S, 0.5)).controlled(2) re-associates, RZ(theta).power(2) raises, a negative
+   count removes controls, and the premise [reading_ok] is satisfiable *)
+Definition gen_example_reading : reading GQring cparam :=
+  mk_reading cfree root_str (case_oracles []) (list (string * cparam)) (fun p _ => p) cparam (filter cfree).
+
+Example generated_reading_ok : reading_ok gen_example_reading.
+Proof. exact (filter_reading_ok cfree). Qed.
+
+Example generated_methods_run :
+  shown gen_example_reading (Gate_controlled_gen (emb gen_example_reading (Dag (Pow (Base "S" [] 1 false) (ERoot 2)))) 2)
+  = inl (Ctrl (Pow (Dag (Base "S" [] 1 false)) (ERoot 2)) 2) /\
+  Gate_name_gen (emb gen_example_reading (Ctrl (Pow (Dag (Base "S" [] 1 false)) (ERoot 2)) 2)) = "Control"%string /\
+  Gate_name_gen (emb gen_example_reading (Pow (Dag (Base "S" [] 1 false)) (ERoot 2))) = "S_Dagger^0.5"%string /\
+  shown gen_example_reading
+    (@Gate_power_gen (model_world gen_example_reading) (emb gen_example_reading (Base "RZ" [CSym "theta"] 1 false)) (EInt 2))
+  = inr E_ValueError /\
+  shown gen_example_reading (Gate_controlled_gen (emb gen_example_reading (Ctrl (Base "X" [] 1 true) 3)) (-1))
+  = inl (Ctrl (Base "X" [] 1 true) 2) /\
+  shown gen_example_reading
+    (@Gate_bind_gen (model_world gen_example_reading) (emb gen_example_reading (Exp (Base "X" [] 1 true))) [])
+  = inr E_NotImplementedError.
+Proof. vm_compute. repeat split. Qed.
